@@ -499,7 +499,11 @@ class Doist(tyming.Tymist):
             doers is list of doers to add as extension.
 
         """
-        doers = [doer for doer in doers if doer not in self.doers] # ensure unique
+        unique = []  # ensure unique relative to .doers and within doers itself
+        for doer in doers:
+            if doer not in self.doers and doer not in unique:
+                unique.append(doer)
+        doers = unique
         deeds = self.enter(doers=doers)  # provide fresh deeds for new doers
         self.doers.extend(doers)
         self.deeds.extend(deeds)
@@ -1374,7 +1378,11 @@ class DoDoer(Doer):
             doers is list of doers to add as extension.
 
         """
-        doers = [doer for doer in doers if doer not in self.doers] # ensure unique
+        unique = []  # ensure unique relative to .doers and within doers itself
+        for doer in doers:
+            if doer not in self.doers and doer not in unique:
+                unique.append(doer)
+        doers = unique
         deeds = self.enter(doers=doers)  # provide fresh deeds for new doers
         self.doers.extend(doers)
         self.deeds.extend(deeds)
